@@ -268,6 +268,11 @@ class Gen:
             # but it is NOT #f, so it counts as true
             inner, v = self.bool_(env, d - 1), self.tick(self.int_(env, d - 1))
             return r.choice(["(when %s %s)", "(unless %s %s)", "(if %s %s)", "(cond (%s %s))"]) % (inner, v)
+        if k < 0.95:
+            # the branches are the boolean literals and the TEST is not a boolean (a number, a list: true like everything but #f): the
+            # value is the branch, never the test's own value
+            t = self.int_(env, d - 1) if r.random() < 0.6 else self.list_(env, d - 1)
+            return r.choice(["(if %s #t #f)", "(if %s #f #t)", "(if %s #t #f)"]) % self.tick(t)
         return "(if %s #f #t)" % self.bool_(env, d - 1)
 
     def list_(self, env, d):
@@ -478,6 +483,9 @@ class Gen:
                     forms.append("(list ((vector-ref %s 0)) ((vector-ref %s 1)))" % (h, h))
                 else:
                     forms.append("(list ((car %s)) ((cdr %s)))" % (h, h))
+            elif k < 0.81:
+                # truth values as VALUES (not only as tests): what a conditional, a predicate, a comparison returns
+                forms.append("(list %s)" % " ".join(self.bool_(env, self.max_depth - 1) for _ in range(r.randrange(1, 4))))
             elif k < 0.82:
                 forms.append(self.list_(env, self.max_depth - 1))
             else:
@@ -597,14 +605,24 @@ def scope_soup(rng, depth=3):
             names = list(dict.fromkeys(names))
             inner = expr(vis + names, d - 1)
             return "(append (list %s) ((lambda (%s) %s) %s))" % (" ".join(here), " ".join(names), inner, " ".join(init(vis) for _ in names))
-        if kind == 3:       # a body with internal definitions (sequential, in one frame); names distinct, not re-defining a parameter
+        if kind == 3:       # a body with internal definitions (sequential, in one frame); names distinct; half of the time the
+            # procedure has PARAMETERS and an internal definition re-defines one of them (same frame: the name then has ONE binding,
+            # the later one; its initialiser mentions only outer names, so every reading of the body's scoping agrees)
             names = list(dict.fromkeys(names))
+            params = []
+            if rng.random() < 0.5:
+                params = list(dict.fromkeys([rng.choice(POOL) for _ in range(rng.randrange(1, 3))]))
+                if rng.random() < 0.7 and not set(params) & set(names):
+                    names = [params[0]] + names
             defs, cur = [], list(vis)
+            outer_only = [x for x in vis if x not in names and x not in params]
             for v in names:
-                defs.append("(define %s %s)" % (v, init([x for x in cur if x not in names] or [])))
-                cur = cur + [v] if v not in cur else cur
-            inner = expr(vis + names, d - 1)
-            return "(append (list %s) ((lambda () %s %s)))" % (" ".join(here), " ".join(defs), inner)
+                defs.append("(define %s %s)" % (v, init(outer_only)))
+            pre = closures(vis + params) if params and rng.random() < 0.5 else []      # closures made BEFORE the re-definition
+            inner = expr(vis + params + names, d - 1)
+            body = "%s (append (list %s) %s)" % (" ".join(defs), " ".join(pre), inner) if not pre else \
+                   "(define early (list %s)) %s (append early %s)" % (" ".join(pre), " ".join(defs), inner)
+            return "(append (list %s) ((lambda (%s) %s) %s))" % (" ".join(here), " ".join(params), body, " ".join(init(vis) for _ in params))
         # a procedure called twice: each call has its own frame
         p = rng.choice(POOL)
         inner = expr(vis + [p], d - 1)
